@@ -111,12 +111,18 @@ func LookupWellKnown(ctx context.Context, serverNameType spec.ServerName) (*Well
 	}
 
 	// Convert result to JSON
-	wellKnownResponse := &WellKnownResult{
-		CacheExpiresAt: expiryTimestamp,
+	// Only m.server is taken from the body: the cache lifetime comes from the
+	// response headers and must not be overridable by a key of the document.
+	var document struct {
+		NewAddress spec.ServerName `json:"m.server"`
 	}
-	err = json.Unmarshal(body, wellKnownResponse)
+	err = json.Unmarshal(body, &document)
 	if err != nil {
 		return nil, err
+	}
+	wellKnownResponse := &WellKnownResult{
+		NewAddress:     document.NewAddress,
+		CacheExpiresAt: expiryTimestamp,
 	}
 
 	if wellKnownResponse.NewAddress == "" {
